@@ -248,9 +248,12 @@ func c01RowLoop(a *A, f *ssa.Function, ev ssa.Value, wantVals, wantIdents bool) 
 		idxOK     bool
 	}
 	var apps []app
+	// constant flags (a shared conversion inlined with `withValues = false`) decide some branches: code that cannot run
+	// appends nothing, and a test that is constant guards nothing
+	sp := Specialize(f, nil, nil)
 	instrs(f, func(in ssa.Instruction) {
 		st, ok := in.(*ssa.Store)
-		if !ok {
+		if !ok || !sp.Exec[st.Block()] {
 			return
 		}
 		fa, ok := st.Addr.(*ssa.FieldAddr)
@@ -296,6 +299,9 @@ func c01RowLoop(a *A, f *ssa.Function, ev ssa.Value, wantVals, wantIdents bool) 
 		// guarded by anything other than the decoders' error tests?
 		for _, ce := range dominatingConds(st.Block()) {
 			if !hdr.Dominates(ce.If.Block()) || ce.If.Block() == hdr {
+				continue
+			}
+			if l := sp.get(ce.Cond); l.k == cst {
 				continue
 			}
 			if _, _, isNil := nilTest(ce.Cond); !isNil {
